@@ -4,6 +4,7 @@
   `AllPaths P prog []` quantifies over EVERY environment: any store content and answer (so: after any history), any
   injected fault, any token-endpoint answer, any key-source behaviour, any clock reading.
 -/
+import AuthProofs.StateInventory
 import AuthProofs.Ladder
 import AuthProofs.Chain
 import AuthProofs.Redis
@@ -64,6 +65,9 @@ example (cfg : Cfg) (o : Oracles) (sid : Str) (t : Tokens) (a : TokAttrs) (now :
     Justified cfg o { http := true, cookie := [] } [] [] (allow cfg [] t) → False := by
   intro h; exact h.2.1 (by simp [sessionIdFromCookie])
 
+/-- NO HIDDEN STATE: the model treats a check as a function of (configuration, request, store answers, clock, IdP and key-source answers, entropy); that is a faithful reading of the code only if nothing else survives from one check to the next. Regenerated on every run: every package-level variable and struct field of internal/server, internal/authz, internal/http, internal/oidc is the classified expectation, and handlers, filter, HTTP helpers and the Redis store own no mutable state (no verdict cache, handler cache, object pool, single-flight group or per-process copy of session data). -/
+theorem no_hidden_state : CheckPathInventory := check_path_inventory
+
 end AuthProps.C01
 
 #print axioms AuthProps.C01.ok_justified
@@ -74,3 +78,4 @@ end AuthProps.C01
 #print axioms AuthProps.C01.callback_never_ok
 #print axioms AuthProps.C01.chain_ok_needs_all
 #print axioms AuthProps.C01.redis_prefix_safe
+#print axioms AuthProps.C01.no_hidden_state
